@@ -7,6 +7,14 @@ Correspondence with lean/EdzedModel/ExtEvent.lean (+ the life-cycle model of Err
     is_ready() after every life-cycle step, exception or the data recorded by the destination are compared;
   * 'names' scenarios: blocks named in every possible way (user names, automatic names of arbitrary classes,
     _ctrl, _not_NAME, _cron_*) send internal events; names and the sources seen by a probe are compared.
+  * 'ctor' scenarios (lean/EdzedModel/BlkCtor.lean): the constructors themselves -- Block / SBlock / CBlock with every
+    kind of name, `_reserved`, comment, debug, x_ / X_ / refused keywords, initdef with and without
+    init_from_value (real method, the two dummies, a data attribute, a property that raises), classes deriving from each other (automatic
+    names count the instances of the class), duplicates, a finalized / aborted circuit; ExtEvent with positional
+    and keyword arguments; Const (shared instances, unhashable values, UNDEF); get_circuit / reset_circuit from
+    "no circuit at all"; is_current_task inside / outside the simulation task.  Compared: exception class or the
+    name, the sorted list of instance attributes, comment / debug / initdef / x attributes, the stored source,
+    the names registered in the circuit and its is_ready / finalized / error state.
 """
 import asyncio
 import itertools
@@ -27,7 +35,11 @@ RULE = ("send: all life-cycle phases (notStarted, abortedBeforeStart, taskCreate
         "other items incl. items named like parameters of the methods on the way: etype, data, handler, dest) x destination block kinds (generic _event, specific handler, Input.put) -- the phase x "
         "source-shape x value product is enumerated completely, the other dimensions are random; "
         "names: user names incl. reserved/empty ones, automatic names of classes called Probe/ext/Ext/extra/ext_x/"
-        "e/ex/..., _ctrl, _not_NAME, _cron_utc/_cron_local. distinct = hash of (lines, trace); non-trivial = at "
+        "e/ex/..., _ctrl, _not_NAME, _cron_utc/_cron_local; "
+        "ctor: random sequences of constructor calls (Block/SBlock/CBlock x name shapes x _reserved truth values x "
+        "comment/debug x accepted and refused keywords x initdef x init_from_value kinds x class hierarchies; "
+        "ExtEvent argument shapes; Const values; get/reset_circuit; finalize/abort before; is_current_task contexts). "
+        "distinct = hash of (lines, trace); non-trivial = at "
         "least one event delivered or one block created")
 ASSUMPTIONS = [
     "user filters that rewrite the 'source' item are user code and outside the claim",
@@ -126,6 +138,7 @@ def scenarios(rng, tier):
                             csrc=rng.choice(CTOR_SOURCES + [rand_source(rng)] * 4), value=rng.choice(VALUES),
                             source=rng.choice(SOURCES + [rand_source(rng)] * 8), extra=extra))
         yield {'kind': 'send', 'phase': phase, 'ops': ops}
+    yield from ctor_scenarios(rng, tier)
     # names
     user = ['a', 'x_1', '_x', '__', '', '_ext_', '_ext_me', 'ext_', 'e', '_not_a', '_ctrl2', 'Ext', ' ', '1']
     for cls in CLASS_NAMES:
@@ -477,7 +490,356 @@ def run_names(scn):
 
 
 def run_impl(scn):
+    if scn['kind'] == 'ctor':
+        return run_ctor(scn)
     return run_send(scn) if scn['kind'] == 'send' else run_names(scn)
+
+
+
+# ---------------------------------------------------------------- 'ctor' scenarios
+
+CT_NAMES = [None, None, 'a', 'b', 'x_1', '_x', '_ext_1', '_ext_', '_', '', 'ext', 5, ['t'], {'undef': 1}, True,
+            {'blk': 'a'}]
+CT_RESERVED = ['<absent>', False, True, 0, 1, '', 'x', None, [], ['t'], {'undef': 1}]
+CT_CLASSES = [('K', None), ('ext', None), ('Sub', 'ext'), ('ext_a', None), ('Ext', None), ('e', None), ('K2', 'K')]
+CT_KEYS = ['x_a', 'X_b', 'x_', 'xa', 'colour', '_x', 'X', 'name2', 'initdef', 'on_every_output', 'x_a2']
+CT_VALUES = [None, 0, 1, 'v', '', ['t', 1], True, False, {'undef': 1}, {'list': [1]}]
+CT_IFV = ['n', 'n', 'm', 'd', 'a', 'x', 'p', 'r']
+
+
+def ctor_scenarios(rng, tier):
+    def block_op():
+        kind = rng.choice(['s', 's', 's', 'c', 'b'])
+        cls, base = rng.choice(CT_CLASSES)
+        args = [rng.choice(CT_NAMES)] if rng.random() < 0.85 else rng.choice([[], ['a', 'b']])
+        kw = {}
+        if args == [] and rng.random() < 0.7:
+            kw['name'] = rng.choice(CT_NAMES)
+        elif rng.random() < 0.05:
+            kw['name'] = 'dup'
+        r = rng.choice(CT_RESERVED)
+        if r != '<absent>':
+            kw['_reserved'] = r
+        if rng.random() < 0.4:
+            kw['comment'] = rng.choice(CT_VALUES)
+        if rng.random() < 0.4:
+            kw['debug'] = rng.choice(CT_VALUES)
+        if rng.random() < 0.3:
+            kw['on_output'] = rng.choice([None, {'ev': 1}, [], 5, 'x', {'blk': 'a'}])
+        if kind == 's' and rng.random() < 0.3:
+            kw['on_every_output'] = rng.choice([None, {'ev': 1}, 7])
+        for k in rng.sample(CT_KEYS, rng.choice([0, 0, 1, 1, 2, 3])):
+            kw[k] = rng.choice(CT_VALUES)
+        return {'op': 'block', 'kind': kind, 'cls': cls, 'base': base, 'ifv': rng.choice(CT_IFV) if kind == 's' else 'n',
+                'args': args, 'kw': kw}
+
+    def ext_op():
+        dest = rng.choice(['a', 'b', 'nobody', {'blk': 'a'}, {'blk': 'b'}, 5, None, {'ev': 1}, '_ext_0'])
+        shape = rng.random()
+        etype = rng.choice(['ev', 'put', '', 5, None])
+        source = rng.choice(['s', '', '_ext_', '_ext_q', '_ext', None, 5, ['t']])
+        if shape < 0.25:
+            return {'op': 'ext', 'args': [dest], 'kw': {}}
+        if shape < 0.5:
+            return {'op': 'ext', 'args': [dest, etype], 'kw': {'source': source}}
+        if shape < 0.75:
+            return {'op': 'ext', 'args': [dest, etype, source], 'kw': {}}
+        if shape < 0.85:
+            return {'op': 'ext', 'args': [], 'kw': {'dest': dest, 'etype': etype, 'source': source}}
+        if shape < 0.9:
+            return {'op': 'ext', 'args': [dest, etype, source, 1], 'kw': {}}
+        if shape < 0.95:
+            return {'op': 'ext', 'args': [dest], 'kw': {'dest': dest}}
+        return {'op': 'ext', 'args': [dest], 'kw': {'colour': 1}}
+
+    fixed = [
+        [{'op': 'reset', 'how': 'none'}, {'op': 'getcircuit'}, {'op': 'getcircuit'}, {'op': 'resetcircuit'},
+         {'op': 'getcircuit'}],
+        [{'op': 'reset', 'how': 'none'}, {'op': 'resetcircuit'}, {'op': 'getcircuit'}],
+        [{'op': 'reset', 'how': 'none'},
+         {'op': 'block', 'kind': 's', 'cls': 'ext', 'base': None, 'ifv': 'n', 'args': [None], 'kw': {}},
+         {'op': 'block', 'kind': 's', 'cls': 'Sub', 'base': 'ext', 'ifv': 'n', 'args': [None], 'kw': {}},
+         {'op': 'block', 'kind': 's', 'cls': 'ext', 'base': None, 'ifv': 'n', 'args': [None], 'kw': {}},
+         {'op': 'block', 'kind': 's', 'cls': 'Sub', 'base': 'ext', 'ifv': 'n', 'args': ['_ext_5'], 'kw': {'_reserved': 1}},
+         {'op': 'block', 'kind': 's', 'cls': 'ext', 'base': None, 'ifv': 'n', 'args': [None], 'kw': {}},
+         {'op': 'getcircuit'}],
+    ]
+    fixed += [[{'op': 'reset', 'how': 'api'}, {'op': 'iscurrent', 'ctx': c}] for c in ('nostart', 'outside', 'inside', 'after')]
+    fixed += [[{'op': 'reset', 'how': 'api'}, {'op': 'const', 'v': v1}, {'op': 'const', 'v': v2}, {'op': 'const', 'v': v1}]
+              for v1, v2 in ((1, True), ({'list': [1]}, {'list': [1]}), ('a', 'a'), ({'undef': 1}, None), (['t'], ['t']),
+                             (0, False), ({'blk': 'zz'}, 1))]
+    for ops in fixed:
+        yield {'kind': 'ctor', 'ops': ops}
+    n = 120 if tier == 'quick' else 12000
+    for _ in range(n):
+        ops = [{'op': 'reset', 'how': rng.choice(['none', 'api', 'api'])}]
+        # two plain blocks first, so that names and objects exist
+        for nm in ('a', 'b'):
+            if rng.random() < 0.8:
+                ops.append({'op': 'block', 'kind': rng.choice(['s', 'c']), 'cls': 'K', 'base': None, 'ifv': 'n',
+                            'args': [nm], 'kw': {}})
+        for _ in range(rng.randint(2, 9)):
+            r = rng.random()
+            if r < 0.55:
+                ops.append(block_op())
+            elif r < 0.8:
+                ops.append(ext_op())
+            elif r < 0.86:
+                ops.append({'op': 'const', 'v': rng.choice(CT_VALUES + [{'blk': 'a'}])})
+            elif r < 0.9:
+                ops.append({'op': 'getcircuit'})
+            elif r < 0.93:
+                ops.append({'op': 'resetcircuit'})
+            elif r < 0.96:
+                ops.append({'op': 'finalize'})
+            else:
+                ops.append({'op': 'abort'})
+        yield {'kind': 'ctor', 'ops': ops}
+
+
+class _EvLike:
+    """an Event-like object: it has a `send` attribute (that is all `event_tuple` asks for)"""
+    def send(self, *args, **kwargs):
+        return None
+
+
+def run_ctor(scn):
+    from edzed import simulator as sim
+    lines, trace, recs = [], [], []
+    classes, consts, circuits = {}, [], []
+
+    def circuit_line():
+        c = sim._current_circuit
+        if c is None:
+            return 'none'
+        if not any(c is x for x in circuits):
+            circuits.append(c)
+        b = lambda x: 1 if x else 0
+        return (f"circ n={len(circuits)} ready={b(c.is_ready())} fin={b(c.is_finalized())} err={b(c.error is not None)} "
+                f"blocks={','.join(n.encode().hex() for n in c._blocks)}")
+
+    def note_circuit():
+        c = sim._current_circuit
+        if c is not None and not any(c is x for x in circuits):
+            circuits.append(c)
+
+    def value(x):
+        """scenario value -> (python value, protocol token | None when it cannot be expressed)"""
+        if isinstance(x, dict):
+            if 'undef' in x:
+                return edzed.UNDEF, 'vu'
+            if 'list' in x:
+                return list(x['list']), 'v' + enc(list(x['list']))
+            if 'ev' in x:
+                return _EvLike(), 'e'
+            if 'blk' in x:
+                c = sim._current_circuit
+                blk = c._blocks.get(x['blk']) if c is not None else None
+                if blk is None:
+                    return None, None
+                return blk, 'b' + x['blk'].encode().hex()
+        if isinstance(x, list):
+            return tuple(x), 'v' + enc(tuple(x))
+        return x, 'v' + enc(x)
+
+    def values(args, kw):
+        pa, ta, pk, tk = [], [], {}, []
+        for a in args:
+            v, t = value(a)
+            if t is None:
+                return None
+            pa.append(v)
+            ta.append(t)
+        for k in kw:
+            v, t = value(kw[k])
+            if t is None:
+                return None
+            pk[k] = v
+            tk.append(f'{k.encode().hex()}={t}')
+        return pa, ('|'.join(ta) or '-'), pk, ('|'.join(tk) or '-')
+
+    def tok(v):
+        if isinstance(v, edzed.Block):
+            return 'o' + v.name.encode().hex()
+        try:
+            return 'v' + enc(v)
+        except ValueError:
+            return '?'
+
+    def get_class(kind, cls, base, ifv):
+        """one Python class per NAME (the model identifies classes by their __name__): the first use decides the
+        kind, the base and the init_from_value member; returns (class, kind, base, ifv) as they really are"""
+        if cls in classes:
+            return classes[cls]
+        root = {'s': edzed.SBlock, 'c': edzed.CBlock, 'b': edzed.Block}[kind]
+        parent = root
+        if base:
+            parent, kind, _pb, pifv = get_class(kind, base, None, 'n')
+            if ifv == 'n':
+                ifv = pifv          # inherited
+        if kind != 's':
+            ifv = 'n'
+        ns = {}
+        if kind == 'c':
+            ns['calc_output'] = lambda self: None
+        if ifv == 'm':
+            ns['init_from_value'] = lambda self, value: None
+        elif ifv == 'd':
+            ns['init_from_value'] = edzed.SBlock.dummy_method
+        elif ifv == 'a':
+            ns['init_from_value'] = edzed.SBlock.dummy_async_method
+        elif ifv == 'x':
+            ns['init_from_value'] = 5
+        elif ifv == 'p':
+            def getter_a(self):
+                raise AttributeError('no such thing')
+            ns['init_from_value'] = property(getter_a)
+        elif ifv == 'r':
+            def getter_r(self):
+                raise RuntimeError('broken property')
+            ns['init_from_value'] = property(getter_r)
+        classes[cls] = (type(cls, (parent,), ns), kind, base, ifv)
+        return classes[cls]
+
+    def exc_name(err):
+        return type(err).__name__
+
+    ops = list(scn['ops'])
+    if not ops or ops[0]['op'] != 'reset':
+        ops.insert(0, {'op': 'reset', 'how': 'api'})       # (a shrunk scenario may have lost its first operation)
+    for op in ops:
+        kind = op['op']
+        if kind == 'reset':
+            if op['how'] == 'none':
+                edzed.reset_circuit()
+                sim._current_circuit = None       # test set-up: the state of a freshly imported module
+                circuits.clear()
+                lines.append('ext w-reset')
+                trace.append('ok')
+            else:
+                edzed.reset_circuit()
+                edzed.get_circuit()     # (reset_circuit() does nothing when there is no circuit at all)
+                circuits.clear()
+                lines += ['ext w-reset', 'ext w-getcircuit']
+                trace += ['ok', circuit_line()]
+            classes.clear()
+            consts.clear()
+        elif kind == 'getcircuit':
+            edzed.get_circuit()
+            lines.append('ext w-getcircuit')
+            trace.append(circuit_line())
+        elif kind == 'resetcircuit':
+            edzed.reset_circuit()
+            classes.clear()
+            lines.append('ext w-resetcircuit')
+            trace.append(circuit_line())
+        elif kind == 'finalize':
+            edzed.get_circuit().finalize()
+            lines.append('ext w-finalize')
+            trace.append(circuit_line())
+        elif kind == 'abort':
+            edzed.get_circuit().abort(RuntimeError('src1'))
+            lines.append('ext w-abort')
+            trace.append(circuit_line())
+        elif kind == 'block':
+            vals = values(op['args'], op['kw'])
+            if vals is None:
+                continue
+            pa, ta, pk, tk = vals
+            cls, ckind, cbase, cifv = get_class(op['kind'], op['cls'], op['base'], op['ifv'])
+            bases = ','.join(b.encode().hex() for b in ([cbase] if cbase else [])) or '-'
+            lines.append(f"ext w-block {ckind} {op['cls'].encode().hex()} {bases} {cifv} {ta} {tk}")
+            rec = {'op': 'block', 'args': op['args'], 'kw': op['kw'], 'cls': op['cls'], 'kind': ckind}
+            try:
+                blk = cls(*pa, **pk)
+            except (TypeError, ValueError, RuntimeError, edzed.EdzedInvalidState) as err:
+                trace.append(exc_name(err))
+                rec['result'] = exc_name(err)
+            else:
+                attrs = vars(blk)
+                xs = sorted(f'{k.encode().hex()}={tok(v)}' for k, v in attrs.items()
+                            if k.startswith('x_') or k.startswith('X_'))
+                trace.append(f"ok {blk.name.encode().hex()} attrs={','.join(sorted(attrs))} "
+                             f"comment={tok(blk.comment)} debug={tok(blk.debug)} "
+                             f"initdef={tok(attrs['initdef']) if 'initdef' in attrs else '-'} x={','.join(xs)}")
+                rec.update(result='ok', name=blk.name, registered=blk.circuit._blocks.get(blk.name) is blk)
+            note_circuit()
+            recs.append(rec)
+        elif kind == 'ext':
+            vals = values(op['args'], op['kw'])
+            if vals is None:
+                continue
+            pa, ta, pk, tk = vals
+            lines.append(f'ext w-ext {ta} {tk}')
+            rec = {'op': 'ext', 'args': op['args'], 'kw': op['kw']}
+            try:
+                ev = edzed.ExtEvent(*pa, **pk)
+            except (TypeError, KeyError) as err:
+                trace.append(exc_name(err))
+                rec['result'] = exc_name(err)
+            else:
+                trace.append(f'ok {tok(ev._source)} dest={tok(ev._dest)} etype={tok(ev._etype)}')
+                rec.update(result='ok', source=ev._source)
+            note_circuit()
+            recs.append(rec)
+        elif kind == 'const':
+            v, t = value(op['v'])
+            if t is None:
+                continue
+            lines.append(f'ext w-const {t}')
+            try:
+                c = edzed.Const(v)
+            except (ValueError, TypeError) as err:
+                trace.append(exc_name(err))
+            else:
+                same = any(c is p for p in consts)
+                consts.append(c)
+                trace.append(f'ok same={1 if same else 0} out={tok(c.output)}')
+        elif kind == 'iscurrent':
+            trace_line = run_iscurrent(op['ctx'], lines)
+            trace.append(trace_line)
+            note_circuit()
+    nblk = sum(1 for r in recs if r.get('result') == 'ok')
+    tags = ['kind=ctor'] + sorted({f"ctor-{r['op']}={r['result']}" for r in recs})
+    return {'lines': lines, 'trace': trace, 'tags': tags, 'nontrivial': bool(recs) or len(lines) > 2,
+            'sends': [], 'life': [], 'internal': [], 'names': [], 'ctor': recs}
+
+
+def run_iscurrent(ctx, lines):
+    """Circuit.is_current_task() asked before the start, from another task while the simulation runs, from
+    inside the simulation task (a block's init_regular), and after the end without a running loop"""
+    circuit = edzed.get_circuit()
+    seen = {}
+
+    class Asker(edzed.SBlock):
+        def init_regular(self):
+            seen['inside'] = self.circuit.is_current_task()
+            self.set_output(None)
+
+    if ctx == 'nostart':
+        lines.append('ext w-iscurrent - x')
+        return '1' if circuit.is_current_task() else '0'
+    Asker('asker')
+
+    async def main(loop):
+        simtask = asyncio.create_task(circuit.run_forever())
+        await circuit.wait_init()
+        seen['outside'] = circuit.is_current_task()
+        await circuit.shutdown()
+        try:
+            await simtask
+        except BaseException:
+            pass
+
+    vtime.run(main)
+    if ctx == 'after':
+        lines.append('ext w-iscurrent 1 x')
+        return '1' if circuit.is_current_task() else '0'
+    if ctx == 'outside':
+        lines.append('ext w-iscurrent 1 2')
+    else:
+        lines.append('ext w-iscurrent 1 1')
+    return '1' if seen[ctx] else '0'
 
 
 # ---------------------------------------------------------------- oracle
@@ -549,6 +911,26 @@ def oracle(scn, res):
             out.append({'clause': 'internal_source_never_ext',
                         'what': f"internal event from block {source!r} carries a source beginning with '_ext_'",
                         'sig': shape})
+    for r in res.get('ctor', []):
+        if r['op'] == 'block' and r['result'] == 'ok':
+            given = r['args'][0] if r['args'] else r['kw'].get('name')
+            rsv = r['kw'].get('_reserved', False)
+            falsy = rsv in (False, None, 0, '', []) or rsv == {'undef': 1}
+            if isinstance(given, str) and given.startswith('_') and falsy:
+                out.append({'clause': 'internal_source_never_ext',
+                            'what': f"Block({given!r}, _reserved={rsv!r}) accepted a reserved name"})
+            if given is None and not r['name'].startswith(f"_{r['cls']}_"):
+                out.append({'clause': 'internal_source_never_ext', 'what': f"automatic name {r['name']!r} of class {r['cls']}"})
+            if not r['registered']:
+                out.append({'clause': 'ctor_checks', 'what': f"block {r['name']!r} is not registered in its circuit"})
+            if not isinstance(r['name'], str) or not r['name']:
+                out.append({'clause': 'ctor_checks', 'what': f"block name {r['name']!r}"})
+            bad = [k for k in r['kw'] if k not in ('name', 'comment', 'on_output', '_reserved', 'debug', 'on_every_output',
+                                                    'initdef') and not k.startswith(('x_', 'X_'))]
+            if bad:
+                out.append({'clause': 'ctor_checks', 'what': f"keyword(s) {bad} accepted"})
+        if r['op'] == 'ext' and r['result'] == 'ok' and not (isinstance(r['source'], str) and r['source'].startswith('_ext_')):
+            out.append({'clause': 'ext_source_prefixed', 'what': f"ExtEvent default source {r['source']!r}"})
     for kind, arg, name in res['names']:
         if kind == 'user' and name is not None and name.startswith('_'):
             out.append({'clause': 'internal_source_never_ext', 'what': f'user-defined name {name!r} accepted'})
